@@ -24,6 +24,14 @@
 (* end; list(member) must return every remaining line (IterSingleLine is  *)
 (* FALSE: the former deviation is fixed and no longer admitted).  Names    *)
 (* are logged as code-point hex strings.                                   *)
+(* Faults of the caller's file object (ArFile(fileobj=f), f raising or      *)
+(* returning short once at a chosen step) are ordinary events of a history: *)
+(*   [op |-> "openfault", exc]            ArFile(fileobj=f) raised           *)
+(*   [op |-> "fault", m, kind, args, ret, tell, exc]   a call raised; kind = *)
+(*      "one" (read / readline forms) or "lines" (readlines / list())       *)
+(*   [op |-> "short", m, args, ret, tell, exc]  a call returned while f     *)
+(*      delivered short                                                     *)
+(* and every later event must be explained as if nothing had happened.     *)
 (* Batched: <<"ACCEPTED", tid>> is printed for every trace explained       *)
 (* completely, <<"AT", tid, l>> per explained event when TRACE_DIAG = "1". *)
 (***************************************************************************)
@@ -70,9 +78,35 @@ TCall(e) == /\ e.m \in 1..Len(mem)
             /\ e.n = aret'.n
             /\ e.tell = pos'[e.m]
 
+\* total length of the chunks of an event
+RECURSIVE RetLen(_)
+RetLen(r) == IF r = <<>> THEN 0 ELSE Len(Head(r)) + RetLen(Tail(r))
+
+\* a call during which the caller's file object raised: the injected exception came out (exc = "injected" is
+\* logged only for the very exception object the file object raised, or one chained to it), nothing was
+\* returned, and tell() is where AFault says (one-step calls: unchanged; readlines / list(): behind k lines)
+TFault(e) == /\ e.m \in 1..Len(mem)
+             /\ e.exc = "injected"
+             /\ e.ret = <<>>
+             /\ \E k \in 0..Len(BLineSpans(D(e.m), pos[e.m])) : AFault(e.m, e.kind, k)
+             /\ e.tell = pos'[e.m]
+\* a reading call during which the file object returned short: the chunks returned are, put together, exactly
+\* the member's next bytes and tell() is behind them
+TShort(e) == /\ e.m \in 1..Len(mem)
+             /\ e.exc = ""
+             /\ AShort(e.m, RetLen(e.ret))
+             /\ Cat(e.ret) = RBytes(aret', D(e.m))[1]
+             /\ e.tell = pos'[e.m]
+\* ArFile(fileobj=f) failed with the exception f raised: no archive object, nothing happened
+TOpenFault(e) == e.exc = "injected" /\ AOpenFault
+
 TStep == /\ l <= Len(Tr.events)
          /\ LET e == Tr.events[l] IN
-              IF e.op = "open" THEN TOpen(e) ELSE TCall(e)
+              CASE e.op = "open" -> TOpen(e)
+                [] e.op = "openfault" -> TOpenFault(e)
+                [] e.op = "fault" -> TFault(e)
+                [] e.op = "short" -> TShort(e)
+                [] OTHER -> TCall(e)
          /\ l' = l + 1 /\ UNCHANGED tid
          /\ (Diag => PrintT(<<"AT", tid, l>>))
          /\ (l' = Len(Tr.events) + 1 => PrintT(<<"ACCEPTED", tid>>))
